@@ -1,7 +1,7 @@
 (* C06 -- a crop attached to a Runner, Harvester or Sampler reaps what a direct run gives. *)
 From XV Require Import Prelude Grid Perm Runner Batch Crop Label Farmer GenFarmer BridgeFarmer
      Names Harvest GridProofs PermProofs RunnerProofs BatchProofs AssocProofs CropProofs ReapProofs HarvestProofs.
-From XV Require CrashFS GenCrash BridgeCrash Stages GenStages BridgeStages.
+From XV Require CrashFS GenCrash BridgeCrash Stages GenStages BridgeStages HarvestFlow GenHarvest BridgeHarvest.
 Open Scope Z_scope.
 
 (* the labelled-output description reaching the Dataset / DataFrame builder through a crop
@@ -81,6 +81,13 @@ Proof. rewrite BridgeCrash.bridge_shape. reflexivity. Qed.
 Theorem C06_description_read_at_reap : GenStages.gen_info_read_from_disk_each_time = true.
 Proof. exact BridgeStages.bridge_info_from_disk. Qed.
 
+(* a harvester crop hands its Dataset to add_ds, which re-reads the file before merging whatever the
+   (possibly stale, unpickled) harvester object holds in memory -- the regenerated add_ds / save_full_ds flow *)
+Theorem C06_harvest_merges_into_the_file :
+  GenHarvest.gen_add_flow = HarvestFlow.model_add_flow /\ GenHarvest.gen_save_flow = HarvestFlow.model_save_flow.
+Proof. exact (conj BridgeHarvest.bridge_add_flow BridgeHarvest.bridge_save_flow). Qed.
+
+Print Assumptions C06_harvest_merges_into_the_file.
 Print Assumptions C06_description_read_at_reap.
 Print Assumptions C06_function_written_on_every_sow.
 Print Assumptions C06_default_policy_agrees.
